@@ -24,6 +24,15 @@ def text_pool(rng, corp, n_valid=4, n_invalid=3):
     pool.append(v[:-1])
     pool.append(v[1:-1])
     pool.append(v[1:])
+    # what str.strip() / str.split() / unicodedata.normalize() would fold away but the alphabet does not have: a
+    # cache key "cleaned" that way conflates a rejected text with an accepted one (or with another rejected one)
+    ws = rng.choice(["\xa0", "\x0c", "\x0b", "\x1c", "\x1f", "\x85", "\u2003", "\u2028", "\u3000", "\ufeff"])
+    bad = rng.choice(["4 +", "(x", "2x^", "4 * / 2", "(1 + 2"])
+    pool += [ws + v, v + ws, v.replace(" ", ws, 1) if " " in v else v + ws + "1", bad, bad + ws, ws + bad]
+    digs = [i for i, ch in enumerate(v) if ch.isdigit()]
+    if digs:
+        i = rng.choice(digs)
+        pool.append(v[:i] + chr(0xFF10 + int(v[i])) + v[i + 1:])      # a full-width digit (NFKC maps it to the ASCII one)
     # parenthesised groups at both ends whose outer parentheses do NOT pair with each other, and the peeled form
     a_, b_ = rng.choice(["a", "x + 1", "2y", "4"]), rng.choice(["b", "x - 1", "3", "z^2"])
     grp = f"({a_}){rng.choice(['+', ' * ', '', ' - '])}({b_})"
